@@ -10,7 +10,15 @@
 (*     handed to every dependence function (depx in quarter units, depyok), and - from   *)
 (*     a second fit of a fresh model to the row-permuted data - the original row ids of  *)
 (*     every interval (permmembers) and the deviation of estimates / dependence          *)
-(*     parameters (units 1e-9 relative).                                                 *)
+(*     parameters (units 1e-9 relative).  Independent references computed by the driver  *)
+(*     in double precision: mledev[t] - deviation of the (mu, sigma) estimate of interval *)
+(*     t of a normal / log-normal dimension fitted by MLE from the closed-form maximum-   *)
+(*     likelihood estimate (mean and root mean square deviation of the (log) values) of   *)
+(*     the float64 copy of exactly the rows of the interval, whatever the type of the     *)
+(*     data matrix; wdepdev[p] - deviation of the fitted parameters of the p-th linear-   *)
+(*     in-parameters dependence function from the closed-form minimiser of                *)
+(*     sum(w_i (f(x_i) - y_i)^2) over the (interval reference value, estimate) pairs,     *)
+(*     w = weights(x, y) of the function (1 without weights), with or without bounds.     *)
 (*  kind "model": the sequence of (method, weights) with which Distribution.fit was      *)
 (*     called during one model fit, against the fit descriptions.                        *)
 EXTENDS SlicingOps, Json, IOUtils, TLC
@@ -71,6 +79,14 @@ RefExpected(r, t) ==
 (*   dependence functions are then fitted to estimates that differ by that much.               *)
 EstTol(r) == IF r.method = "mle" THEN 2000000 ELSE 1000        \* 2e-3 resp. 1e-6
 DepTol(r) == IF r.method = "mle" THEN 50000000 ELSE 100000     \* 5e-2 resp. 1e-4
+(*   closed-form estimators evaluated in double precision (mean / rms of <= 20000 (log) values: *)
+(*   round-off < 1e-10 including the cancellation in sigma) are compared at the 1e-6 of the      *)
+(*   other closed-form estimators; evaluation in a narrower type errs by 5e-4 (half precision).  *)
+ClosedFormTol == 1000                                          \* 1e-6
+(*   dependence parameters against the closed-form weighted least-squares solution for the SAME  *)
+(*   pairs: only the optimiser's termination error remains (curve_fit ftol = xtol = 1e-8 on a    *)
+(*   linear problem, observed below 1e-6); 1e-4 as for the least-squares class of DepTol.        *)
+LinDepTol == 100000                                            \* 1e-4
 
 DimClauses(r) ==
   IF r.exc # "" THEN << <<"UnexpectedException", FALSE>> >>
@@ -85,10 +101,15 @@ DimClauses(r) ==
     <<"FitDataAreMaskedRows", \A t \in 1..Len(r.datamasked) : r.datamasked[t]>>,
     <<"IntervalCountConsistent", Len(r.datamasked) = K(r) /\ Len(r.standalone) = K(r) /\ Len(r.refq) = K(r)>>,
     <<"EstimateIsStandAloneFit", \A t \in 1..Len(r.standalone) : r.standalone[t]>>,
+    (* the stand-alone fit by maximum likelihood of a family with a closed-form MLE is that closed form *)
+    (* of the observations of the interval (as numbers: the storage type of the matrix does not matter) *)
+    <<"EstimateIsClosedFormMLE", \A t \in 1..Len(r.mledev) : r.mledev[t] <= ClosedFormTol>>,
     <<"ReferenceRule", r.onlat /\ \A t \in 1..Min2(K(r), Len(r.refq)) : r.refq[t] = RefExpected(r, t)>>,
     <<"DepFitInputsX", \A p \in 1..Len(r.depx) : r.depx[p] = r.refq>>,
     <<"DepFitInputsY", \A p \in 1..Len(r.depyok) : r.depyok[p]>>,
     <<"EveryDependenceFunctionFitted", Len(r.depx) = r.ndep>>,
+    (* fitted TO the pairs: a linear-in-parameters function ends at the (weighted) least-squares solution *)
+    <<"DependenceIsWeightedLeastSquares", \A p \in 1..Len(r.wdepdev) : r.wdepdev[p] <= LinDepTol>>,
     <<"PermutationSameIntervals", r.permmembers = r.members>>,
     <<"PermutationSameEstimates", r.permestdev <= EstTol(r)>>,
     <<"PermutationSameDependence", r.permdepdev <= DepTol(r)>>,
